@@ -39,57 +39,59 @@ def run(ck):
             asite = prog.method(ocls, "apply").site()
             with ck.guard("C08.R1", inst, asite):
                 paths = _apply_paths(ck, cls, oname)
-                p = single(paths, inst)
                 if not shape_err_verdict(ck, "C08.R2", inst, paths):
                     continue
-                s, o, smp, r = p.value
-                # ---------------- R1: the batch is not written
-                wr = [e for e in p.effects if "param:samples" in e.origins and e.kind in ("write", "meta")]
-                ck.check(not wr, "C08.R1", inst + ":samples untouched", wr[0].site if wr else asite,
-                         "apply writes the caller's sample batch (%s via %s)" % (wr[0].detail if wr else "", " > ".join(wr[0].stack[-2:]) if wr else ""))
-                unk = api.unknown_effects(p, ("param:samples",))
-                if unk:
-                    ck.undecided("C08.R1", inst + ":opaque", unk[0][0].site, "the batch is handed to an opaque call %s" % (unk[0][0].detail[1],))
-                pe = api.param_effects(p, include_grad=True)
-                ck.check(not pe, "C08.R1", inst + ":model untouched", pe[0].site if pe else asite, "apply changes model parameters")
-                # ---------------- R2: real, one value per sample
-                ck.check(isinstance(r, VTens) and r.shape == ("B",), "C08.R2", inst + ":shape", asite,
-                         "apply returns shape %s; expected one value per sample (B,)" % (getattr(r, "shape", None),))
-                t = r.term if isinstance(r, VTens) else None
-                if t is None:
-                    ck.undecided("C08.R2", inst + ":real", asite, "no term for the result")
-                    continue
-                ck.check(T.as_stack0(t) is None and "lit:1j" not in t.syms(), "C08.R2", inst + ":real", asite, "the result is a complex pair, not a real number per sample")
-                # ---------------- R3: estimator structure
-                S = T.sym("samples")
-                absolute = oname.endswith("/absolute")
-                if ocls in ("SigmaX", "SigmaY"):
-                    _check_flip_estimator(ck, inst, asite, p, cls, ocls, absolute)
-                elif ocls == "SigmaZ":
-                    want = 2 * T.app("mean", S, (-1,)) - 1
-                    if absolute:
-                        want = T.absval(want)
-                    d = lin_diff(t, want)
-                    ck.check(diff_verdict(d), "C08.R3", inst + ":2*mean-1", asite, "SigmaZ estimator vs 2*mean_sites(sample)-1: " + diff_msg(d), got=t)
-                else:
-                    x = 2 * S - 1
-                    c = T.sym("c")
-                    if oname.endswith("open"):
-                        a = T.app("index", x, (("slice", None, None, None), ("slice", None, -c, None)))
-                        b = T.app("index", x, (("slice", None, None, None), ("slice", c, None, None)))
-                        want = T.app("sum", a * b, (-1,)) * T.inv(T.sym("nv"))
+                base_inst = inst
+                for p in returning(paths, inst):
+                    inst = base_inst + ("[%s]" % path_tag(p) if len(paths) > 1 else "")
+                    s, o, smp, r = p.value
+                    # ---------------- R1: the batch is not written
+                    wr = [e for e in p.effects if "param:samples" in e.origins and e.kind in ("write", "meta")]
+                    ck.check(not wr, "C08.R1", inst + ":samples untouched", wr[0].site if wr else asite,
+                             "apply writes the caller's sample batch (%s via %s)" % (wr[0].detail if wr else "", " > ".join(wr[0].stack[-2:]) if wr else ""))
+                    unk = api.unknown_effects(p, ("param:samples",))
+                    if unk:
+                        ck.undecided("C08.R1", inst + ":opaque", unk[0][0].site, "the batch is handed to an opaque call %s" % (unk[0][0].detail[1],))
+                    pe = api.param_effects(p, include_grad=True)
+                    ck.check(not pe, "C08.R1", inst + ":model untouched", pe[0].site if pe else asite, "apply changes model parameters")
+                    # ---------------- R2: real, one value per sample
+                    ck.check(isinstance(r, VTens) and r.shape == ("B",), "C08.R2", inst + ":shape", asite,
+                             "apply returns shape %s; expected one value per sample (B,)" % (getattr(r, "shape", None),))
+                    t = r.term if isinstance(r, VTens) else None
+                    if t is None:
+                        ck.undecided("C08.R2", inst + ":real", asite, "no term for the result")
+                        continue
+                    ck.check(T.as_stack0(t) is None and "lit:1j" not in t.syms(), "C08.R2", inst + ":real", asite, "the result is a complex pair, not a real number per sample")
+                    # ---------------- R3: estimator structure
+                    S = T.sym("samples")
+                    absolute = oname.endswith("/absolute")
+                    if ocls in ("SigmaX", "SigmaY"):
+                        _check_flip_estimator(ck, inst, asite, p, cls, ocls, absolute)
+                    elif ocls == "SigmaZ":
+                        want = 2 * T.app("mean", S, (-1,)) - 1
+                        if absolute:
+                            want = T.absval(want)
+                        d = lin_diff(t, want)
+                        ck.check(diff_verdict(d), "C08.R3", inst + ":2*mean-1", asite, "SigmaZ estimator vs 2*mean_sites(sample)-1: " + diff_msg(d), got=t)
                     else:
-                        isym = [n for n in t.syms() if n.startswith("i@")]
-                        if len(isym) != 1:
-                            ck.undecided("C08.R3", inst + ":pairs", asite, "periodic pairing index list not recognised")
-                            continue
-                        perm = ("advcomp", T.app("mod", T.sym(isym[0]) + c, T.sym("nv")), ("range", T.ZERO, T.sym("nv"), T.ONE))
-                        b = T.app("index", x, (("slice", None, None, None), perm))
-                        want = T.app("sum", x * b, (-1,)) * T.inv(T.sym("nv"))
-                    if t == want:
-                        ck.ok("C08.R3", inst + ":pairs (i, i+c)/L", asite, got=t)
-                    else:
-                        _diag_zz(ck, inst, asite, t, want)
+                        x = 2 * S - 1
+                        c = T.sym("c")
+                        if oname.endswith("open"):
+                            a = T.app("index", x, (("slice", None, None, None), ("slice", None, -c, None)))
+                            b = T.app("index", x, (("slice", None, None, None), ("slice", c, None, None)))
+                            want = T.app("sum", a * b, (-1,)) * T.inv(T.sym("nv"))
+                        else:
+                            isym = [n for n in t.syms() if n.startswith("i@")]
+                            if len(isym) != 1:
+                                ck.undecided("C08.R3", inst + ":pairs", asite, "periodic pairing index list not recognised")
+                                continue
+                            perm = ("advcomp", T.app("mod", T.sym(isym[0]) + c, T.sym("nv")), ("range", T.ZERO, T.sym("nv"), T.ONE))
+                            b = T.app("index", x, (("slice", None, None, None), perm))
+                            want = T.app("sum", x * b, (-1,)) * T.inv(T.sym("nv"))
+                        if t == want:
+                            ck.ok("C08.R3", inst + ":pairs (i, i+c)/L", asite, got=t)
+                        else:
+                            _diag_zz(ck, inst, asite, t, want)
     # ------------------------------------------------------------------ R4 importance weights
     for cls in STATES:
         inst = "importance_sampling_weight/" + cls
@@ -110,19 +112,19 @@ def run(ck):
                     refd = call(it, s, "psi", v)
                 return w, ed, num, den, refn, refd
 
-            p = single(paths_of(prog, th, sticky=True), inst)
-            shape_err_verdict(ck, "C08.R4", inst, [p])
-            w, ed, num, den, refn, refd = p.value
-            ck.check(w.term == ed.term, "C08.R4", inst + ":weight=numerator/denominator", wsite, "weight(vp, v) is not numerator(vp, v) / denominator(v)")
-            ck.check(num.term == refn.term, "C08.R4", inst + ":numerator", prog.method(cls, "importance_sampling_numerator").site(),
-                     "numerator(vp, v) is not %s" % ("rho(vp, v) (argument order rho(s', s))" if cls == "DensityMatrix" else "psi(vp)"),
-                     deps=sorted(num.term.syms() & {"v", "vp"}))
-            ck.check(den.term == refd.term, "C08.R4", inst + ":denominator", prog.method(cls, "importance_sampling_denominator").site(),
-                     "denominator(v) is not %s" % ("(probability(v), 0)" if cls == "DensityMatrix" else "psi(v)"))
-            if cls == "DensityMatrix":
-                # rho(vp, v): the first argument is the flipped configuration (row), the second the sample (column)
-                ex = T.rename_syms(refn.term, {"v": "vp", "vp": "v"})
-                ck.check(ex != refn.term, "C08.R4", inst + ":order matters", wsite, "rho(vp, v) == rho(v, vp) structurally: argument order cannot be checked")
+            for p in returning(paths_of(prog, th, sticky=True), inst):
+                shape_err_verdict(ck, "C08.R4", inst, [p])
+                w, ed, num, den, refn, refd = p.value
+                ck.check(w.term == ed.term, "C08.R4", inst + ":weight=numerator/denominator", wsite, "weight(vp, v) is not numerator(vp, v) / denominator(v)")
+                ck.check(num.term == refn.term, "C08.R4", inst + ":numerator", prog.method(cls, "importance_sampling_numerator").site(),
+                         "numerator(vp, v) is not %s" % ("rho(vp, v) (argument order rho(s', s))" if cls == "DensityMatrix" else "psi(vp)"),
+                         deps=sorted(num.term.syms() & {"v", "vp"}))
+                ck.check(den.term == refd.term, "C08.R4", inst + ":denominator", prog.method(cls, "importance_sampling_denominator").site(),
+                         "denominator(v) is not %s" % ("(probability(v), 0)" if cls == "DensityMatrix" else "psi(v)"))
+                if cls == "DensityMatrix":
+                    # rho(vp, v): the first argument is the flipped configuration (row), the second the sample (column)
+                    ex = T.rename_syms(refn.term, {"v": "vp", "vp": "v"})
+                    ck.check(ex != refn.term, "C08.R4", inst + ":order matters", wsite, "rho(vp, v) == rho(v, vp) structurally: argument order cannot be checked")
     # to_pm1 / to_01
     U = "qucumber.observables.utils"
     for fname, want in (("to_pm1", lambda x: 2 * x - 1), ("to_01", lambda x: (x + 1) / 2)):
@@ -133,12 +135,12 @@ def run(ck):
                 x = tens(it, "x", ("B", "nv"))
                 return x, it.call_function(VFunc(f), [x], {}, None)
 
-            p = single(paths_of(prog, thu), fname)
-            x, r = p.value
-            d = lin_diff(r.term, want(T.sym("x")))
-            ck.check(diff_verdict(d), "C08.R3", fname, f.site(), "%s: %s" % (fname, diff_msg(d)))
-            wr = [e for e in p.effects if "param:x" in e.origins]
-            ck.check(not wr and r.obj.origin == "fresh", "C08.R1", fname + ":pure", f.site(), "%s modifies or returns its argument" % fname)
+            for p in returning(paths_of(prog, thu), fname):
+                x, r = p.value
+                d = lin_diff(r.term, want(T.sym("x")))
+                ck.check(diff_verdict(d), "C08.R3", fname, f.site(), "%s: %s" % (fname, diff_msg(d)))
+                wr = [e for e in p.effects if "param:x" in e.origins]
+                ck.check(not wr and r.obj.origin == "fresh", "C08.R1", fname + ":pure", f.site(), "%s modifies or returns its argument" % fname)
     ck.require_min("C08.R1", 50)
     ck.require_min("C08.R2", 48)
     ck.require_min("C08.R3", 40)
